@@ -62,6 +62,25 @@ CHECKS['C04'] = dict(
          'expressions and schedula DispatchPipe of _range2parts (spelling -> numbers); non-ASCII upper-casing.',
     technique='Lean 4 proof of a hand-written model + differential correspondence check against the implementation')
 
+CHECKS['C19'] = dict(
+    text=('Lean 4 theorems (XL.Props.C19) about the scans of MATCH over an abstract key type with the order laws as '
+          'hypotheses: match_asc + asc_positions (strictly ascending keys: the position returned is that of the LAST key not '
+          'greater than the value, none when there is none — including the code\'s early exits and its "never stop at position '
+          '1" rule), match_desc (strictly descending keys), match_exact (the FIRST key passing the equality / wildcard test, any '
+          'order), wildcard_rules (* ? and literals), lookup_is_index_of_match, vlookup_beyond (#REF!), index_spec, '
+          'countif_is_filter, sumif_selected, sat_same_type. The model XL.Model.Look follows xmatch, _index, xlookup, '
+          'args_parser_hlookup and _xfilter (criterion parsing: operator prefix, wildcards with ~ escapes, number / logical / '
+          'error operands; typed comparison; numeric text). The check evaluates MATCH (3 modes, wildcards), INDEX, LOOKUP, '
+          'VLOOKUP, HLOOKUP, COUNTIF, SUMIF, AVERAGEIF through compiled formulas on generated vectors/tables (sorted for the '
+          'approximate modes, mixed with duplicates for exact) and compares every result with the Lean model and with '
+          'brute-force search definitions written independently.'),
+    design='DESIGN.md §3 C19, §9',
+    note=COMMON_NOTE + 'The order laws (KeyLaws) are hypotheses, shown satisfiable for Int; that finite doubles, Python strings and '
+         'logicals satisfy them is assumed. Not generated: date texts as criterion operands, error values inside tested ranges, '
+         'INDEX on references with areas / row 0 / column 0, non-ASCII text (String.toUpper is ASCII). Fixed by this check: '
+         '4720e73 (wildcards, letter case, cached comparison of TRUE and 1).',
+    technique='Lean 4 proof (what the three MATCH scans return on sorted / arbitrary keys; criteria as filters) + correspondence with the executable model + brute-force search oracle on the implementation')
+
 CHECKS['C20'] = dict(
     text=('Lean 4 theorems (XL.Props.C20) for every input, not by enumeration: date_roundtrip — DATE(YEAR,MONTH,DAY) '
           'of every serial 0..2958465 is the serial (civil-from-days/days-from-civil proved inverse for all day '
